@@ -3,7 +3,7 @@
 D=$1; shift
 cd /repo && git status --porcelain | grep -q . && { echo "/repo not clean"; exit 2; }
 git -C /repo apply $D/patch.diff || { echo "patch does not apply"; exit 2; }
-trap 'git -C /repo checkout -- . ; echo reverted' EXIT
+trap 'git -C /repo reset -q --hard HEAD; echo reverted' EXIT
 cd /verif
 for c in "$@"; do
   echo "=== $c"; ./check $c --tier quick 2>&1 | grep -E "VIOLATION|KNOWN-FINDING|TOOL-ERROR|SPEC-DRIFT" | cut -c1-220; echo "exit=${PIPESTATUS[0]}"
